@@ -87,6 +87,9 @@ class IndexSum(Operator):
     def _simplify_indexed(self, multiindex):
         """Return a simplified Expr used in the constructor of Indexed(self, multiindex)."""
         A, i = self.ufl_operands
+        if i[0] in multiindex:
+            # Indexing the summand with the summation index would capture it
+            return Operator._simplify_indexed(self, multiindex)
         return IndexSum(Indexed(A, multiindex), i)
 
     def evaluate(self, x, mapping, component, index_values):
